@@ -8,7 +8,8 @@ From JsonSyntax Require Import Base.Prelude Base.Value Base.Unicode Model.Kind S
   Model.Parser Model.EntryPoints Model.Compare Model.Object Model.CodeMapNav
   Model.Printer Spec.Minimal Spec.Layout Model.Unordered Spec.Multimap
   Base.Float64 Spec.EcmaNumber Spec.Jcs Model.Canon
-  Spec.NumSpelling Spec.SerdeData Spec.SerdeJsonValue Spec.SerdeRoundTrip Model.SerdeValue.
+  Spec.NumSpelling Spec.SerdeData Spec.SerdeJsonValue Spec.SerdeRoundTrip Model.SerdeValue
+  Model.Macro Model.MacroFloat Spec.MacroDoc.
 
 Extraction Language OCaml.
 Set Extraction KeepSingleton.
@@ -50,4 +51,6 @@ Extraction "model.ml"
   (* serde: Value's own impls (C17) and the serde_json bridge (C18) *)
   Z.opp Z.abs_N Z.ltb Z.to_N
   to_value from_value from_text from_sj into_sj ser_spec de_ok detour_ok collapse nodup_keysb
-  nums64 wf_nums wf_sj sj_eqb K1 K2 K3 K4 K5 K6 dbl valid_number is_int64 num_pres.
+  nums64 wf_nums wf_sj sj_eqb K1 K2 K3 K4 K5 K6 dbl valid_number is_int64 num_pres
+  (* json! macro *)
+  expand tokens text value_of lexical_f64 dec_of_Z.
